@@ -123,3 +123,78 @@ pub fn panic_text(p: &(dyn std::any::Any + Send)) -> String {
 pub fn silence_panics() {
     std::panic::set_hook(Box::new(|_| {}));
 }
+
+/// Lock-order monitor (C04, "no interleaving can deadlock the workers"): reads the (held class -> requested class)
+/// edges recorded by the tracked locks of swarm.rs during this process and reports a violation for every cycle
+/// between distinct lock classes - two code paths that take the same two locks in opposite orders can deadlock under
+/// some interleaving even if none of the executions observed here did. Nesting within one class is only counted.
+pub fn check_lock_order(report: &mut vcore::Report, engine: &str) {
+    use std::collections::{BTreeMap, BTreeSet};
+    let short = |s: &str| -> String {
+        // strip module paths: "hashbrown::map::HashMap<aquatic_udp_protocol::common::InfoHash, ..>" -> "HashMap<InfoHash, ..>"
+        let mut out = String::new();
+        let mut seg = String::new();
+        let cs: Vec<char> = s.chars().collect();
+        let mut i = 0;
+        while i < cs.len() {
+            let c = cs[i];
+            if c.is_alphanumeric() || c == '_' {
+                seg.push(c);
+            } else if c == ':' && i + 1 < cs.len() && cs[i + 1] == ':' {
+                seg.clear();
+                i += 1;
+            } else {
+                out.push_str(&seg);
+                seg.clear();
+                out.push(c);
+            }
+            i += 1;
+        }
+        out.push_str(&seg);
+        out
+    };
+    let edges = aquatic_common::verif::lock_order_edges();
+    let mut adj: BTreeMap<String, BTreeSet<String>> = BTreeMap::new();
+    for (a, b, n) in edges.iter() {
+        let (a, b) = (short(a), short(b));
+        report.add(&format!("lock_order.edge[{} -> {}].threads", a, b), *n);
+        if a == b {
+            report.add("lock_order.same_class_nesting(observation)", *n);
+            continue;
+        }
+        adj.entry(a).or_default().insert(b);
+    }
+    report.add("lock_order.edges", edges.len() as u64);
+    // cycle search: for every edge a -> b, is a reachable from b?
+    let mut reported: BTreeSet<Vec<String>> = BTreeSet::new();
+    for (a, outs) in adj.iter() {
+        for b in outs.iter() {
+            let mut stack = vec![(b.clone(), vec![a.clone(), b.clone()])];
+            let mut seen: BTreeSet<String> = BTreeSet::new();
+            while let Some((cur, path)) = stack.pop() {
+                if &cur == a {
+                    let mut key = path.clone();
+                    key.sort();
+                    key.dedup();
+                    if reported.insert(key) {
+                        report.violation(
+                            "udp.lock_order.inversion",
+                            "deadlock",
+                            format!("lock classes are requested in a cyclic order: {} (each arrow: the left class was held by a thread while it requested the right one); some interleaving of these code paths deadlocks", path.join(" -> ")),
+                            serde_json::json!({"engine": engine, "cycle": path, "edges": edges.iter().map(|(a, b, n)| format!("{} -> {} ({} threads)", short(a), short(b), n)).collect::<Vec<_>>()}),
+                        );
+                    }
+                    break;
+                }
+                if !seen.insert(cur.clone()) {
+                    continue;
+                }
+                for nx in adj.get(&cur).into_iter().flatten() {
+                    let mut p = path.clone();
+                    p.push(nx.clone());
+                    stack.push((nx.clone(), p));
+                }
+            }
+        }
+    }
+}
